@@ -7,13 +7,13 @@ use std::collections::VecDeque;
 const SPEC: Spec = Spec {
     id: "C09",
     engine: "E-prod (exhaustive enumeration of values and byte/word slices vs refint) + E-hist (complete tree walk over iterator call sequences on the real iterators vs a VecDeque model; histories are not merged)",
-    rule: "export: every value of the stated families through every byte/digit export of both types; import: every byte string over {00,01,7f,80,ff} and every u32 slice over {0,1,2^31,2^32-1} up to the length bound through every constructor; iterators: every call sequence over {next, next_back, nth(0), nth(1), nth(2)} up to the depth bound on iter_u32_digits / iter_u64_digits of 16 values, with len/size_hint after every call and last/count/rev().next()/collect on a replayed copy of every prefix; non-trivial = value >= 2^32 (export), slice with redundant padding or sign extension (import), history that consumed from both ends (iterators)",
+    rule: "export: every value of the stated families through every byte/digit export of both types; import: every byte string over {00,01,7f,80,ff} and every u32 slice over {0,1,2^31,2^32-1} up to the length bound through every constructor; iterators: every call sequence over {next, next_back, nth(0), nth(1), nth(2)} up to the depth bound on iter_u32_digits / iter_u64_digits of 16 values, with len/size_hint after every call and last/count/rev().next()/collect/skip/step_by/rev().nth on a replayed copy of every prefix, and every call sequence over the long-skip alphabet {next, next_back, nth(1), nth(3), nth(4), nth(7)} on 4 values of 12..17 u32 digits; non-trivial = value >= 2^32 (export), slice with redundant padding or sign extension (import), history that consumed from both ends (iterators)",
     assumptions: &[
         "iterator call sequences are bounded in length (every sequence up to the bound is executed; sequences are longer than the digit lists, so exhaustion and fused behaviour are inside the bound)",
         "refint base-256 / 2^32 / two's-complement export is trusted; cross-checked against Python int.to_bytes on a transcript slice",
     ],
-    bounds_quick: "E1 +-Dense(S32,3) and 2^(8k-1), 2^(8k-1)+-1, 2^(8k)-1 for k<=24; Ib bytes {00,01,7f,80,ff}^<=7; Iw u32 {0,1,2^31,2^32-1}^<=7 + long padded slices; IT call sequences up to length 8 on 16 values x 2 iterator kinds; L every byte length 8..=72 and 255,256,257,1000,8801 x 8 shapes x 5 paddings (imports, word imports, exports)",
-    bounds_thorough: "E1; Ib length <= 9; Iw length <= 9; IT call sequences up to length 10; L up to 32793 bytes",
+    bounds_quick: "E1 +-Dense(S32,3) and 2^(8k-1), 2^(8k-1)+-1, 2^(8k)-1 for k<=24; Ib bytes {00,01,7f,80,ff}^<=7; Iw u32 {0,1,2^31,2^32-1}^<=7 + long padded slices; IT call sequences up to length 8 on 16 values x 2 iterator kinds; IT2 long-skip call sequences up to length 6 on 4 values of 12..17 u32 digits x 2 kinds; L every byte length 8..=72 and 255,256,257,1000,8801 x 8 shapes x 5 paddings (imports, word imports, exports)",
+    bounds_thorough: "E1; Ib length <= 9; Iw length <= 9; IT call sequences up to length 10; IT2 up to length 8; L up to 32793 bytes",
     hang_secs: 120,
     probes: None,
     max_workers: 16,
@@ -285,6 +285,43 @@ fn check_history(ctx: &mut Ctx, case: &ItCase, kind: u8, hist: &[Call]) {
         replay_iter!(u.iter_u64_digits(), hist, |x| x).0.rev().collect::<Vec<u64>>(),
         rest.iter().rev().cloned().collect::<Vec<u64>>()
     );
+    // adaptors that std implements through nth / nth_back / try_fold on the replayed copy
+    consuming!(
+        "skip(2).next()",
+        replay_iter!(u.iter_u32_digits(), hist, |x| x as u64).0.skip(2).next().map(|x| x as u64),
+        replay_iter!(u.iter_u64_digits(), hist, |x| x).0.skip(2).next(),
+        rest.get(2).cloned()
+    );
+    consuming!(
+        "skip(3).collect()",
+        replay_iter!(u.iter_u32_digits(), hist, |x| x as u64).0.skip(3).map(|x| x as u64).collect::<Vec<u64>>(),
+        replay_iter!(u.iter_u64_digits(), hist, |x| x).0.skip(3).collect::<Vec<u64>>(),
+        rest.iter().skip(3).cloned().collect::<Vec<u64>>()
+    );
+    consuming!(
+        "step_by(2).collect()",
+        replay_iter!(u.iter_u32_digits(), hist, |x| x as u64).0.step_by(2).map(|x| x as u64).collect::<Vec<u64>>(),
+        replay_iter!(u.iter_u64_digits(), hist, |x| x).0.step_by(2).collect::<Vec<u64>>(),
+        rest.iter().step_by(2).cloned().collect::<Vec<u64>>()
+    );
+    consuming!(
+        "step_by(3).collect()",
+        replay_iter!(u.iter_u32_digits(), hist, |x| x as u64).0.step_by(3).map(|x| x as u64).collect::<Vec<u64>>(),
+        replay_iter!(u.iter_u64_digits(), hist, |x| x).0.step_by(3).collect::<Vec<u64>>(),
+        rest.iter().step_by(3).cloned().collect::<Vec<u64>>()
+    );
+    consuming!(
+        "rev().step_by(3).collect()",
+        replay_iter!(u.iter_u32_digits(), hist, |x| x as u64).0.rev().step_by(3).map(|x| x as u64).collect::<Vec<u64>>(),
+        replay_iter!(u.iter_u64_digits(), hist, |x| x).0.rev().step_by(3).collect::<Vec<u64>>(),
+        rest.iter().rev().step_by(3).cloned().collect::<Vec<u64>>()
+    );
+    consuming!(
+        "rev().nth(2)",
+        replay_iter!(u.iter_u32_digits(), hist, |x| x as u64).0.rev().nth(2).map(|x| x as u64),
+        replay_iter!(u.iter_u64_digits(), hist, |x| x).0.rev().nth(2),
+        rest.iter().rev().nth(2).cloned()
+    );
     // fused: two further calls after the history
     let mut h2 = hist.to_vec();
     h2.push(Call::Next);
@@ -303,16 +340,24 @@ fn check_history(ctx: &mut Ctx, case: &ItCase, kind: u8, hist: &[Call]) {
 }
 
 fn walk(ctx: &mut Ctx, case: &ItCase, kind: u8, hist: &mut Vec<Call>, maxlen: usize) {
+    walk_with(ctx, case, kind, hist, maxlen, &CALLS)
+}
+
+fn walk_with(ctx: &mut Ctx, case: &ItCase, kind: u8, hist: &mut Vec<Call>, maxlen: usize, calls: &[Call]) {
     check_history(ctx, case, kind, hist);
     if hist.len() == maxlen {
         return;
     }
-    for &c in &CALLS {
+    for &c in calls {
         hist.push(c);
-        walk(ctx, case, kind, hist, maxlen);
+        walk_with(ctx, case, kind, hist, maxlen, calls);
         hist.pop();
     }
 }
+
+/// Long-skip alphabet of the second iterator space: skips that cross one, two and three whole 64-bit digits from
+/// either phase of a u32 iterator (a fast path in `nth` would be keyed on n / 2 and on the half it stands on).
+const CALLS_SKIP: [Call; 6] = [Call::Next, Call::NextBack, Call::Nth(1), Call::Nth(3), Call::Nth(4), Call::Nth(7)];
 
 fn body(ctx: &mut Ctx) {
     let tier = ctx.tier;
@@ -492,6 +537,38 @@ fn body(ctx: &mut Ctx) {
                         walk(ctx, &case, kind, &mut hist, maxlen);
                         ctx.sample(|| format!("value {} iter_u{}_digits: every call sequence starting [{:?},{:?}] up to length {}", n.to_hex(), kind, c0, c1, maxlen));
                     }
+                }
+            }
+        }
+    }
+    // ---- IT2 long skips on longer values (odd and even numbers of u32 halves)
+    if ctx.space("IT2") {
+        let maxlen = tier.pick(6, 8);
+        let h = 1u64 << 32;
+        let vals: Vec<Vec<u64>> = vec![
+            vec![1, 2, 3, 4, 5, 6 | (7 << 32)],
+            vec![h | 1, 2 * h | 3, 4 * h | 5, 6 * h | 7, 8 * h | 9, 10 * h | 11, 12],
+            vec![alpha::M, 0, h, alpha::M, 1, 0, 0, h - 1],
+            vec![0, 0, 0, 0, 0, 0, 0, 0, h],
+        ];
+        let mut o = 0u64;
+        for vd in &vals {
+            let u = bu(vd);
+            let n = Nat::from_digits(vd);
+            let case = ItCase { u: &u, digits32: n.to_u32_digits().iter().map(|&x| x as u64).collect(), digits64: n.digits().to_vec() };
+            for kind in [32u8, 64] {
+                for &c0 in &CALLS_SKIP {
+                    let take = ctx.mine(o);
+                    o += 1;
+                    if !take {
+                        continue;
+                    }
+                    if c0 == Call::Next {
+                        check_history(ctx, &case, kind, &[]);
+                    }
+                    let mut hist = vec![c0];
+                    walk_with(ctx, &case, kind, &mut hist, maxlen, &CALLS_SKIP);
+                    ctx.sample(|| format!("value {} iter_u{}_digits: every call sequence over the long-skip alphabet starting [{:?}] up to length {}", n.to_hex(), kind, c0, maxlen));
                 }
             }
         }
